@@ -203,6 +203,12 @@ PAIRS = [("maybe_code", "maybe_type"), ("get_code()", "get_type()"), ("Resolutio
          ("is_root", "is_asset"), ("Namespaces::type_()", "Namespaces::value()"), ("ReferenceNamespace::Value", "ReferenceNamespace::Type"), (".start", ".end"), ("Resolution::None", "Resolution::Ok"),
          ("push_back(", "push_front("), ("first()", "last()"), ("ModuleSlot::Err", "ModuleSlot::Module"), ("in_dynamic_branch", "is_dynamic")]
 
+PAIRS += [("is_dynamic", "is_asset"), ("CacheSetting::Only", "CacheSetting::Reload"), ("ModuleSlot::Pending", "ModuleSlot::Err"),
+          ("follow_dynamic", "check_js"), ("prefer_fast_check_graph", "follow_dynamic"), ("is_type_only", "is_dynamic"), ("ImportKind::Es", "ImportKind::TsType"),
+          ("DependencyKind::ImportType", "DependencyKind::Import"), ("Namespaces::all()", "Namespaces::value()"), ("Visibility::Public", "Visibility::Private")]
+ONEWAY = [("kind.include_types()", "true"), ("requested_specifier", "specifier"), ("load_specifier", "specifier"), ("maybe_range", "maybe_referrer"), (".maybe_types", ".maybe_code"),
+          ("ImportedExports::AllWithDefault", "ImportedExports::star()"), ("graph_kind.include_types()", "true"), ("graph_kind.include_code()", "true")]
+
 
 @op("pair-swap")
 def _(l):
@@ -210,7 +216,105 @@ def _(l):
     for a, b in PAIRS:
         out += sub_each(l, r"(?<![\w])" + re.escape(a), b) if a[0].isalpha() else sub_each(l, re.escape(a), b)
         out += sub_each(l, r"(?<![\w])" + re.escape(b), a) if b[0].isalpha() else sub_each(l, re.escape(b), a)
+    for a, b in ONEWAY:
+        out += sub_each(l, r"(?<![\w\.])" + re.escape(a) + r"(?![\w])", b) if a[0].isalpha() else sub_each(l, re.escape(a) + r"(?![\w])", b)
     return out
+
+
+def _split_top(cond, sep):
+    """split `cond` at top-level occurrences of sep (' && ' / ' || ')"""
+    parts, depth, cur, i = [], 0, "", 0
+    while i < len(cond):
+        ch = cond[i]
+        if ch in "([{":
+            depth += 1
+        elif ch in ")]}":
+            depth -= 1
+        if depth == 0 and cond.startswith(sep, i):
+            parts.append(cur)
+            cur = ""
+            i += len(sep)
+            continue
+        cur += ch
+        i += 1
+    parts.append(cur)
+    return parts
+
+
+@op("drop-conjunct")
+def _(l):
+    """`if a && b {` -> `if a {` / `if b {` (a guard weakened / strengthened by one operand)"""
+    m = re.match(r"^(\s*(?:\} else )?(?:if|while) )(?!let\b)([^{]+?)( \{\s*)$", l)
+    out = []
+    if m and "let " not in m.group(2):
+        for sep in (" && ", " || "):
+            parts = _split_top(m.group(2), sep)
+            if len(parts) > 1 and not (sep == " && " and any(" || " in x and not x.strip().startswith("(") for x in parts)):
+                for k in range(len(parts)):
+                    rest = parts[:k] + parts[k + 1:]
+                    out.append(m.group(1) + sep.join(rest) + m.group(3))
+                break
+    return out
+
+
+@op("neg-conjunct")
+def _(l):
+    m = re.match(r"^(\s*(?:\} else )?(?:if|while) )(?!let\b)([^{]+?)( \{\s*)$", l)
+    out = []
+    if m and "let " not in m.group(2):
+        for sep in (" && ", " || "):
+            parts = _split_top(m.group(2), sep)
+            if len(parts) > 1:
+                for k in range(len(parts)):
+                    q = parts[k].strip()
+                    if " || " in q or " && " in q:
+                        continue
+                    nq = q[1:] if q.startswith("!") and re.match(r"^![\w\.\(\):&]+$", q) else "!(" + q + ")"
+                    out.append(m.group(1) + sep.join(parts[:k] + [nq] + parts[k + 1:]) + m.group(3))
+                break
+    return out
+
+
+@op("chain-drop")
+def _(l):
+    """a refinement call removed from an iterator / option chain"""
+    out = []
+    code, cm = code_part(l)
+    for name in ("rev", "skip", "take", "filter", "skip_while", "take_while", "dedup", "peekable", "fuse", "trim", "trim_start", "trim_end", "to_lowercase", "to_ascii_lowercase"):
+        for m in re.finditer(r"\." + name + r"\(", code):
+            depth, j = 0, m.end() - 1
+            while j < len(code):
+                if code[j] == "(":
+                    depth += 1
+                elif code[j] == ")":
+                    depth -= 1
+                    if depth == 0:
+                        break
+                j += 1
+            if j < len(code) and depth == 0:
+                out.append(code[: m.start()] + code[j + 1:] + cm)
+    # a whole `.filter(..)` / `.rev()` line of a multi-line chain
+    if re.match(r"^\s+\.(rev|skip|take|filter|skip_while|take_while)\(.*\)\s*$", code) and code.count("(") == code.count(")"):
+        out.append("")
+    return out
+
+
+@op("first-last-wins")
+def _(l):
+    out = sub_each(l, r"\.entry\(([^()]*(?:\([^()]*\))?[^()]*)\)\.or_insert\(", r".insert(\1, ")
+    out += sub_each(l, r"\.unwrap_or\(([^()]+)\)", lambda m: None)
+    return out
+
+
+@op("unwrap-default")
+def _(l):
+    return sub_each(l, r"\.unwrap_or_default\(\)", ".unwrap_or(true)") + sub_each(l, r"\.unwrap_or\(0\)", ".unwrap_or(1)")
+
+
+@op("bound-shift")
+def _(l):
+    """slice / range bounds: `[a..b]` -> `[a..]`, `..=` <-> `..`"""
+    return sub_each(l, r"\.\.=", "..") + sub_each(l, r"(?<=[\w\)])\.\.(?=[\w\(])", "..=")
 
 
 @op("continue-break")
